@@ -103,6 +103,7 @@ var nameForms = []func(i int, r *rand.Rand) string{
 	func(i int, r *rand.Rand) string { return fmt.Sprintf("-%d", i+1) },          // looks like a negative number
 	func(i int, r *rand.Rand) string { return fmt.Sprintf("pad%d ", i) },         // ends in a blank (part of the name)
 	func(i int, r *rand.Rand) string { return fmt.Sprintf("a,b;%d", i) },         // separators of lists inside a name
+	func(i int, r *rand.Rand) string { return fmt.Sprintf("R%d", i-1) },          // differs from r<i-1> of the plain form only in case
 	func(i int, r *rand.Rand) string { return fmt.Sprintf("r%d", i) },
 	func(i int, r *rand.Rand) string { return fmt.Sprintf("r%d", i) },
 }
@@ -176,6 +177,9 @@ func Gen(r *rand.Rand, o GenOpts) *RuleSet {
 		if r.Intn(3) == 0 {
 			ru.HasDesc = true
 			ru.Desc = fmt.Sprintf("desc of %d", i)
+			if i > 0 && r.Intn(4) == 0 {
+				ru.Desc = rs.Rules[r.Intn(i)].Name // a description that reads like (another rule's) name
+			}
 		}
 		if r.Float64() < o.FailProb {
 			ru.Fail = kinds[r.Intn(len(kinds))]
